@@ -1,11 +1,240 @@
-import Operon.Model.Atp
-/-! # C04 — energy ledger (work in progress) -/
+import Operon.Lemmas.C04
+/-!
+# C04 — energy ledger: no overdraft, exact charging, free failures, bounded total spend
+
+Property theorems only.  Model: `Operon/Model/Atp.lean` (hand-written, tied to
+`operon_ai/state/metabolism.py :: ATP_Store` by the differential correspondence of `harness/vf/props/c04.py`).
+
+Every statement quantifies over
+* every metabolic-state classifier `cls` (the float computation of `_update_state` is a parameter: no clause
+  of the property depends on which state the thresholds pick),
+* every store / colony of stores — all budgets, capacities (zero included), debt limits, interest rates,
+  counters and metabolic states; `Sys.WF` only says "balances, debt and capacities are non-negative", which
+  holds for every constructed store (`fresh_wf`) and is preserved (`c04_balances_nonneg`),
+* every finite history `ops : List Op` of consume (all currencies, allow_debt, priority), regenerate,
+  transfer_to (any two stores, also a store to itself), convert_nadh_to_atp, enter/exit dormancy,
+  apply_debt_interest and reset with natural-number arguments — no bound on length or on any amount.
+
+Balances are `Int` in the model (Python ints), so non-negativity is proved, not assumed by typing.
+-/
 namespace Operon.Atp
 
-/-- regression of the top-up-then-debt overcharge: budget 5, NADH 3, `consume(10, allow_debt=True)` removes 10 -/
-theorem c04_topup_then_debt_regression :
-    let s := Store.fresh 5 0 3 100 1 10
-    ((consumeCore s 10 .atp true 0).2.success = true) ∧ (consumeCore s 10 .atp true 0).1.worth = s.worth - 10 := by
-  decide
+variable (cls : Classifier)
+
+/-! ### exact charging, free failures -/
+
+/-- `consume` always returns a bool — it never raises, whatever the store (zero capacities, debt, any state). -/
+theorem c04_consume_returns_bool (s : Store) (cost : Nat) (cur : Cur) (d : Bool) (p : Nat) :
+    ∃ b, (consume cls s cost cur d p).2.1 = .ok b :=
+  ⟨_, (consume_spec cls s cost cur d p).2⟩
+
+/-- A spend that reports success removes exactly its cost from the store's net worth (balances minus debt):
+    direct deduction, NADH top-up, debt, and top-up followed by debt alike, in every currency. -/
+theorem c04_success_charges_exactly (s : Store) (cost : Nat) (cur : Cur) (d : Bool) (p : Nat)
+    (h : (consume cls s cost cur d p).2.1 = .ok true) :
+    (consume cls s cost cur d p).1.worth = s.worth - cost := by
+  obtain ⟨hs, hr⟩ := consume_spec cls s cost cur d p
+  rw [hr] at h
+  have hb : (consume cls s cost cur d p).2.2.success = true := by injection h
+  have := hs.worth; simp only [hb, reduceIte] at this; exact this
+
+/-- A spend that reports failure removes nothing and creates nothing: net worth, debt, the sum of the
+    balances, the GTP balance and the audit counter are unchanged (a refused ATP spend may still have moved
+    NADH into ATP — that is a conversion inside the store, not a charge). -/
+theorem c04_failure_is_free (s : Store) (cost : Nat) (cur : Cur) (d : Bool) (p : Nat)
+    (h : (consume cls s cost cur d p).2.1 = .ok false) :
+    (consume cls s cost cur d p).1.worth = s.worth ∧ (consume cls s cost cur d p).1.debt = s.debt ∧
+    (consume cls s cost cur d p).1.total = s.total ∧ (consume cls s cost cur d p).1.gtp = s.gtp ∧
+    (consume cls s cost cur d p).1.consumed = s.consumed := by
+  obtain ⟨hs, hr⟩ := consume_spec cls s cost cur d p
+  rw [hr] at h
+  have hb : (consume cls s cost cur d p).2.2.success = false := by injection h
+  have h1 := hs.worth; have h2 := hs.consumed; have h3 := hs.free hb
+  simp only [hb, Bool.false_eq_true, reduceIte] at h1 h2
+  exact ⟨by omega, h3.1, h3.2.1, h3.2.2, by omega⟩
+
+/-- The audit counter `total_consumed` grows by exactly the cost of every successful spend. -/
+theorem c04_audit_counter_exact (s : Store) (cost : Nat) (cur : Cur) (d : Bool) (p : Nat)
+    (h : (consume cls s cost cur d p).2.1 = .ok true) :
+    (consume cls s cost cur d p).1.consumed = s.consumed + cost := by
+  obtain ⟨hs, hr⟩ := consume_spec cls s cost cur d p
+  rw [hr] at h
+  have hb : (consume cls s cost cur d p).2.2.success = true := by injection h
+  have := hs.consumed; simp only [hb, reduceIte] at this; exact this
+
+/-! ### no overdraft -/
+
+/-- Every balance, the debt (and every capacity) of every store stays `>= 0` along every history.  (A history
+    is any list, so this covers every intermediate state as well.) -/
+theorem c04_balances_nonneg (sys : Sys) (ops : List Op) (wf : Sys.WF sys) : Sys.WF (run cls sys ops).1 :=
+  run_wf cls ops sys wf
+
+/-- Debt stays within its limit, interest aside: after any history the debt of store `i` is at most its
+    (unchanged) debt limit plus the interest that `apply_debt_interest` charged to it along the way. -/
+theorem c04_debt_within_limit (sys : Sys) (ops : List Op) (wf : Sys.WF sys) (i : Nat) (s : Store)
+    (h : sys[i]? = some s) (hd : s.debt ≤ s.maxDebt) :
+    ∃ s', (run cls sys ops).1[i]? = some s' ∧ s'.maxDebt = s.maxDebt ∧
+      s'.debt ≤ s.maxDebt + accrued cls i sys ops := by
+  obtain ⟨s', h1, h2, h3, -⟩ := run_debt cls i ops sys s 0 wf h (Int.le_refl 0) (by omega)
+  exact ⟨s', h1, h2, by omega⟩
+
+/-- … and without `apply_debt_interest` in the history the debt never exceeds the limit. -/
+theorem c04_debt_within_limit_no_interest (sys : Sys) (ops : List Op) (wf : Sys.WF sys) (i : Nat) (s : Store)
+    (h : sys[i]? = some s) (hd : s.debt ≤ s.maxDebt) (hno : ∀ op ∈ ops, ∀ j, op ≠ .interest j) :
+    ∃ s', (run cls sys ops).1[i]? = some s' ∧ s'.debt ≤ s'.maxDebt := by
+  obtain ⟨s', h1, h2, h3⟩ := c04_debt_within_limit cls sys ops wf i s h hd
+  rw [accrued_eq_zero cls i ops sys hno] at h3
+  exact ⟨s', h1, by omega⟩
+
+/-! ### regeneration, transfers -/
+
+/-- Regeneration (also the deposit half of a transfer, which is the peer's `regenerate`) never lifts a
+    balance above its capacity: afterwards every balance is at most the larger of its capacity and its
+    previous value — the currency regenerated and the other two alike. -/
+theorem c04_regenerate_never_above_capacity (s : Store) (n : Nat) (cur c : Cur) :
+    (regenerate cls s n cur).1.bal c ≤ max (s.cap c) (s.bal c) ∧ (regenerate cls s n cur).1.cap c = s.cap c := by
+  have h := (regenerate_spec cls s n cur).1
+  refine ⟨h.capped c, ?_⟩
+  obtain ⟨h1, h2, h3, -⟩ := h.cfg
+  cases c <;> simp only [Store.cap] <;> assumption
+
+/-- In particular a balance within its capacity stays within it. -/
+theorem c04_regenerate_within_capacity (s : Store) (n : Nat) (cur c : Cur) (h : s.bal c ≤ s.cap c) :
+    (regenerate cls s n cur).1.bal c ≤ (regenerate cls s n cur).1.cap c := by
+  obtain ⟨h1, h2⟩ := c04_regenerate_never_above_capacity cls s n cur c
+  omega
+
+/-- Regeneration adds at most the regenerated amount to the net worth and never raises. -/
+theorem c04_regenerate_adds_at_most (s : Store) (n : Nat) (cur : Cur) :
+    (regenerate cls s n cur).1.worth ≤ s.worth + n ∧ (regenerate cls s n cur).2 = .ok () :=
+  ⟨(regenerate_spec cls s n cur).1.worth, (regenerate_spec cls s n cur).2⟩
+
+/-- Transfers never create energy: the combined net worth of the colony does not increase, for any two
+    stores (a store transferring to itself included), any amount, any currency, any outcome. -/
+theorem c04_transfer_never_creates (sys : Sys) (i j n : Nat) (cur : Cur) :
+    sumOf Store.worth (step cls sys (.transfer i j n cur)).1 ≤ sumOf Store.worth sys := by
+  have := step_pot pot_worth cls sys (.transfer i j n cur) (fun _ h => nomatch h) rfl
+  simp only [paid] at this; omega
+
+/-- More generally only `regenerate` and `reset` bring energy in: every other call leaves the colony's net
+    worth where it was or lower, and a successful `consume` lowers it by exactly its cost. -/
+theorem c04_only_inflow_creates (sys : Sys) (op : Op) (wf : Sys.WF sys) (h : op.inflow = false) :
+    sumOf Store.worth (step cls sys op).1 + paid op (step cls sys op).2 ≤ sumOf Store.worth sys :=
+  step_pot pot_worth cls sys op (fun _ _ => wf) h
+
+/-! ### bounded total spend -/
+
+/-- Without regeneration (no `regenerate`, no `reset`) the total cost of the spends that reported success,
+    over all stores of the colony, is bounded by what the colony could pay at the start: its balances plus
+    the unused part of its debt limits (`room`).  Transfers between the stores, conversions, dormancy and
+    interest are allowed in the history. -/
+theorem c04_total_spend_bounded (sys : Sys) (ops : List Op) (wf : Sys.WF sys)
+    (h : ∀ op ∈ ops, op.inflow = false) :
+    spentOf ops (run cls sys ops).2 ≤ sumOf Store.room sys := by
+  have h1 := run_pot pot_room cls ops sys wf h
+  have h2 := sumOf_nonneg Store.room room_nonneg _ (run_wf cls ops sys wf)
+  omega
+
+/-- The same for one freshly constructed store, in the words of the property: total successful spend is at
+    most initial balances plus the debt limit. -/
+theorem c04_total_spend_bounded_fresh (b g n md rn rd : Nat) (ops : List Op)
+    (h : ∀ op ∈ ops, op.inflow = false) :
+    spentOf ops (run cls [Store.fresh b g n md rn rd] ops).2 ≤ b + g + n + md := by
+  have wf : Sys.WF [Store.fresh b g n md rn rd] := by
+    intro i s hs
+    cases i with
+    | zero => simp at hs; subst hs; exact fresh_wf b g n md rn rd
+    | succ k => simp at hs
+  have := c04_total_spend_bounded cls _ ops wf h
+  simp only [sumOf, List.map, List.sum_cons, List.sum_nil, room_fresh] at this
+  omega
+
+/-- So any loop that pays a positive cost per step halts: in a history without inflow in which every
+    `consume` costs at least 1, the number of spends that report success is bounded by `room` … -/
+theorem c04_positive_cost_successes_bounded (sys : Sys) (ops : List Op) (wf : Sys.WF sys)
+    (h : ∀ op ∈ ops, op.inflow = false)
+    (hpos : ∀ op ∈ ops, ∀ i cost cur d p, op = .consume i cost cur d p → 1 ≤ cost) :
+    (successes ops (run cls sys ops).2 : Int) ≤ sumOf Store.room sys :=
+  Int.le_trans (successes_le_spent ops _ hpos) (c04_total_spend_bounded cls sys ops wf h)
+
+/-- … hence a history in which every `consume` call succeeded contains at most `room` of them: the
+    `room + 1`-st paying call of any loop is refused, whatever else (without inflow) the loop does. -/
+theorem c04_positive_cost_loop_halts (sys : Sys) (ops : List Op) (wf : Sys.WF sys)
+    (h : ∀ op ∈ ops, op.inflow = false)
+    (hpos : ∀ op ∈ ops, ∀ i cost cur d p, op = .consume i cost cur d p → 1 ≤ cost)
+    (hall : AllConsumesSucceed ops (run cls sys ops).2) :
+    (consumeCalls ops : Int) ≤ sumOf Store.room sys := by
+  have := c04_positive_cost_successes_bounded cls sys ops wf h hpos
+  rw [successes_eq_calls ops _ hall] at this
+  exact this
+
+/-! ### no operation raises -/
+
+/-- No call raises — for every colony (well formed or not, zero capacities, debt present), every operation,
+    every argument.  The only exception the code could raise on integer arguments is the `ZeroDivisionError`
+    of `_update_state`; both of its divisions are guarded. -/
+theorem c04_no_raise (sys : Sys) (op : Op) (e : Exc) : (step cls sys op).2 ≠ .raised e :=
+  step_no_raise cls sys op e
+
+/-- … along every history. -/
+theorem c04_no_raise_run (sys : Sys) (ops : List Op) : ∀ r ∈ (run cls sys ops).2, ∀ e, r ≠ .raised e := by
+  induction ops generalizing sys with
+  | nil => intro r hr; simp [run] at hr
+  | cons op ops ih =>
+    intro r hr e
+    simp only [run, List.mem_cons] at hr
+    rcases hr with rfl | hr
+    · exact step_no_raise cls sys op e
+    · exact ih _ r hr e
+
+/-! ### Non-vacuity: concrete stores and histories meeting the hypotheses -/
+
+/-- a classifier to compute with -/
+private def cN : Classifier := fun _ _ => .normal
+
+/-- `c04_success_charges_exactly`: the former overcharge case — budget 5, NADH 3, `consume(10, allow_debt=True)`
+    succeeds (top-up then debt) … -/
+example : retBool (consume cN (Store.fresh 5 0 3 100 1 10) 10 .atp true 0).2.1 = .bool true := by decide
+/-- … and removes exactly 10 (it removed 13 before the repair). -/
+example : (consume cN (Store.fresh 5 0 3 100 1 10) 10 .atp true 0).1.worth = 8 - 10 := by decide
+/-- debt in the NADH currency succeeds and empties the NADH balance -/
+example : (consume cN (Store.fresh 10 0 3 100 1 10) 4 .nadh true 0).2.2 = .debt false ∧
+    (consume cN (Store.fresh 10 0 3 100 1 10) 4 .nadh true 0).1.nadh = 0 ∧
+    (consume cN (Store.fresh 10 0 3 100 1 10) 4 .nadh true 0).1.debt = 1 := by decide
+/-- `c04_failure_is_free`: a refused spend that had already topped ATP up from NADH -/
+example : (consume cN (Store.fresh 5 0 3 0 1 10) 10 .atp true 0).2.2 = .refused true ∧
+    retBool (consume cN (Store.fresh 5 0 3 0 1 10) 10 .atp true 0).2.1 = .bool false := by decide
+/-- `c04_consume_returns_bool` / `c04_no_raise`: the former ZeroDivisionError case (zero capacity, debt) -/
+example : (step cN [Store.fresh 0 0 0 5 1 10] (.consume 0 3 .atp true 0)).2 = .bool true := by decide
+/-- `Sys.WF`, `debt ≤ maxDebt`, no-inflow and positive-cost hypotheses hold for a fresh two-store colony and
+    a history with spends, a transfer, a conversion and interest … -/
+private def sys0 : Sys := [Store.fresh 5 0 3 10 1 2, Store.fresh 0 0 0 5 1 2]
+private def ops0 : List Op :=
+  [.consume 0 7 .atp true 5, .transfer 0 1 1 .nadh, .consume 1 3 .atp true 10, .interest 1, .convert 0 2,
+   .consume 0 9 .atp true 10, .consume 0 9 .atp true 10]
+example : Sys.WF sys0 := by
+  intro i s h
+  match i, h with
+  | 0, h => simp [sys0] at h; subst h; exact fresh_wf ..
+  | 1, h => simp [sys0] at h; subst h; exact fresh_wf ..
+  | k + 2, h => simp [sys0] at h
+example : ∀ op ∈ ops0, op.inflow = false := by decide
+example : ∀ op ∈ ops0, ∀ i cost cur d p, op = .consume i cost cur d p → 1 ≤ cost := by
+  intro op h; simp only [ops0, List.mem_cons, List.not_mem_nil, or_false] at h
+  rcases h with rfl | rfl | rfl | rfl | rfl | rfl | rfl <;> intro i cost cur d p e <;> cases e <;> decide
+/-- … in which spends succeed, interest accrues (store 1: limit 5, debt 3 + interest 1) and the
+    last spend is refused: 7 + 3 + 9 = 19 spent of a room of 5 + 3 + 10 + 5 = 23. -/
+example : (run cN sys0 ops0).2 =
+    [.bool true, .bool true, .bool true, .none, .int 0, .bool true, .bool false] := by decide
+example : accrued cN 1 sys0 ops0 = 1 ∧ ((run cN sys0 ops0).1.map Store.debt) = [9, 4] := by decide
+example : spentOf ops0 (run cN sys0 ops0).2 = 19 ∧ sumOf Store.room sys0 = 23 := by decide
+/-- `AllConsumesSucceed` is satisfiable (a prefix of the history above) and fails once the money is gone -/
+example : AllConsumesSucceed (ops0.take 6) (run cN sys0 (ops0.take 6)).2 := by decide
+example : ¬ AllConsumesSucceed ops0 (run cN sys0 ops0).2 := by decide
+/-- `c04_regenerate_within_capacity`: hypothesis met, and the clamp is exercised (10 + 7 clamps to 12 … -/
+example : ((regenerate cN { Store.fresh 12 0 0 0 1 10 with atp := 10 } 7 .atp).1.atp) = 12 := by decide
+/-- … while a balance that a refused top-up left above capacity is pulled back, never pushed further). -/
+example : (consume cN (Store.fresh 5 0 3 0 1 10) 10 .atp false 0).1.atp = 8 ∧
+    (regenerate cN (consume cN (Store.fresh 5 0 3 0 1 10) 10 .atp false 0).1 1 .atp).1.atp = 5 := by decide
 
 end Operon.Atp
